@@ -121,7 +121,7 @@ UNIT = Unit("codec", ["base.rs"], [
        ensures=[("C08", "len", "final(output)@.len() == old(output)@.len()")],
        hints=[(r"if \(output\.len\(\) as u128\) <", 1, "proof { assert(0 <= width as int * height as int <= 0xffff_ffff * 0xffff_ffff) by(nonlinear_arith) requires 0 <= width as int <= 0xffff_ffff, 0 <= height as int <= 0xffff_ffff; }", "before"),
               (r"process_plane\(&mut input_cursor, width, height, &mut output\[3\.\.\]\)", 1, "proof { assert(width as int * height as int >= 1) by(nonlinear_arith) requires width as int >= 1, height as int >= 1; }", "before")]),
-    Stub(RLE, "rle_16_decompress", mod="rle", why="TEMPORARY: proof pending", expand=["repeat"], **RLE16_CONTRACT),
+    RLE16,
     Fn(RLE, "rgb565torgb32", mod="rle", props=["C08", "C09"], ret="result",
        requires=["width * height <= input@.len()", "width * height * 4 <= usize::MAX"],
        ensures=[("C08", "len", "result@.len() == width * height * 4"),
